@@ -510,7 +510,39 @@ func TestC13_Exhaustive(t *testing.T) {
 // mutateText applies one edit to a text (lines level or byte level).
 func mutateText(t *rapid.T, s string, o textOpts) string {
 	ls := strings.Split(s, "\n")
-	switch rapid.IntRange(0, 11).Draw(t, "mut") {
+	switch rapid.IntRange(0, 15).Draw(t, "mut") {
+	case 12: // terminal control sequences only: a colour changes, appears, or every sequence is lost (NO_COLOR regression)
+		if strings.Contains(s, "\x1b[31m") {
+			if rapid.Bool().Draw(t, "recolour") {
+				return strings.ReplaceAll(s, "\x1b[31m", "\x1b[32m")
+			}
+			return strings.NewReplacer("\x1b[31m", "", "\x1b[0m", "", "\x1b[1m", "").Replace(s)
+		}
+		i := rapid.IntRange(0, len(ls)-1).Draw(t, "li")
+		out := append([]string{}, ls...)
+		out[i] = rapid.SampledFrom([]string{"\x1b[31m", "\x1b[1m", "\x1b[0m"}).Draw(t, "sgr") + out[i] + "\x1b[0m"
+		return strings.Join(out, "\n")
+	case 13: // characters nobody sees: blank <-> no-break space, a zero width space / joiner / direction mark somewhere
+		if i := strings.Index(s, " "); i >= 0 && rapid.Bool().Draw(t, "nbsp") {
+			return s[:i] + rapid.SampledFrom([]string{"\u00a0", "\u202f", "\u2009"}).Draw(t, "space") + s[i+1:]
+		}
+		if i := strings.Index(s, "\u00a0"); i >= 0 {
+			return s[:i] + " " + s[i+2:]
+		}
+		i := rapid.IntRange(0, len(s)).Draw(t, "pos")
+		for i > 0 && i < len(s) && s[i]&0xC0 == 0x80 {
+			i--
+		}
+		return s[:i] + rapid.SampledFrom([]string{"\u200b", "\u200d", "\u200f", "\u00ad", "\u2060"}).Draw(t, "invisible") + s[i:]
+	case 14: // the whole text reappears behind a label glued to its first line (error wrappers, worker prefixes)
+		return rapid.SampledFrom([]string{"1 error occurred:\n\t* ", "worker 3: ", "# Report\n\n> "}).Draw(t, "label") + s
+	case 15: // everything from a line that merely STARTS with the terminator on is gone (a table that lost its body)
+		for i := 1; i < len(ls); i++ {
+			if strings.HasPrefix(ls[i], "---") {
+				return strings.Join(ls[:i], "\n")
+			}
+		}
+		return s + "\n" + rapid.SampledFrom([]string{"----------", "--- FAIL: TestA", "|---|---|", "--- a/file.go"}).Draw(t, "dashed")
 	case 0: // flip one byte
 		if len(s) == 0 {
 			return "x"
